@@ -130,7 +130,8 @@ int main(int argc, char **argv) {
             // ---- the writer process ----
             int code = 0;
             try {
-                ops::Session se; se.path = work;
+                // the session object is leaked on purpose: nothing may close the file before the SIGKILL
+                ops::Session &se = *new ops::Session(); se.path = work;
                 vf::set_clock(E.clock0);
                 se.open();
                 std::vector<int> steps = st.hist; steps.push_back(op);
@@ -144,12 +145,10 @@ int main(int argc, char **argv) {
                     std::string text = E.canon(se.file);
                     if (variant == 2) se.file.close();
                     else if (!se.file.flush()) code = 12;
-                    if (code == 0) { std::ofstream o(obsf, std::ios::binary); o << text; o.close(); }
+                    if (code == 0) { std::ofstream o(obsf, std::ios::binary); o << text; o.close(); kill(getpid(), SIGKILL); }
                 }
             } catch (...) { code = 13; }
-            if (code != 0) _exit(code);
-            kill(getpid(), SIGKILL);
-            _exit(99);
+            _exit(code ? code : 99);
         }
         int stt = 0; waitpid(pid, &stt, 0);
         if (WIFEXITED(stt)) {
